@@ -89,7 +89,23 @@ def run(ctx):
         if any(a in nb_vals or a in oe_loads for a in c.args):
             if FL.loop_latches_for(f, c):
                 writers.append(c)
-    ctx.require(len(writers) >= 4, "walk_ports: only %d buffer-writing calls found inside the port loop" % len(writers))
+    # bytes appended by hand (a copy loop through a cursor that starts at old_end / in the buffer) are writes too
+    oe_vals, _oe_slots = G.derived(f, oe)
+    raw_appends = []
+    for i in f.insts():
+        if i.op == "store" and i.text.startswith("store i8 "):
+            v, p = G.parse_store(i)
+            if v != "0" and (p in oe_vals or p in nb_vals) and FL.loop_latches_for(f, i):
+                raw_appends.append(i)
+    ctx.require(len(writers) + len(raw_appends) >= 4, "walk_ports: only %d buffer-writing sites found inside the port loop" % (len(writers) + len(raw_appends)))
+    # R09.4 for walk_ports: hand-appended bytes are terminated before the buffer is read by the walker / the recursion
+    nul_stores = [i for i in f.insts() if i.op == "store" and i.text.startswith("store i8 0,") and (G.parse_store(i)[1] in oe_vals or G.parse_store(i)[1] in nb_vals)]
+    direct_writers = [c for c in writers if not c.indirect and not re.match(r'^(rtosc::)?walk_ports', P.dm(c.callee))]
+    readers = [c for c in writers if c.indirect or re.match(r'^(rtosc::)?walk_ports', P.dm(c.callee))]
+    for a in raw_appends:
+        esc4 = FL.escapes(f, a, nul_stores + direct_writers, readers)
+        ctx.ob("R09.4", "walk_ports: append@%s" % a.line, esc4 is None, site=a.where(),
+               what="walk_ports: bytes appended at %s reach %s without a terminating NUL: what an earlier, longer address left in the buffer is read as part of the name" % (a.where(), esc4.where() if esc4 is not None else ""))
     rets = [i for i in f.insts() if i.op == "ret"]
     for k, w in enumerate(writers):
         # the for-range latch is the outermost loop containing the writer
